@@ -872,6 +872,30 @@ func (c *Ctx) diatonicTables(fnName string) (major, minor []string, pos token.Po
 		return nil, nil, 0, fmt.Errorf("op.DiatonicChorderImpl.%s not found", fnName)
 	}
 	pos = fd.Pos()
+	// by folding the method for a major and a minor scale (tables, or names derived from one another)
+	if sfn := c.fn("op", "DiatonicChorderImpl."+fnName); sfn != nil {
+		fold := func(minor bool) []string {
+			boolT := types.Typ[types.Bool]
+			scale := &StructV{Fields: map[string]Val{"Key": &StructV{Fields: map[string]Val{"Minor": &CVal{V: constant.MakeBool(minor), T: boolT}}}}}
+			recv := fval{fields: map[string]fval{"scale": {cvptr: scale}}}
+			r, err := c.newFolder().foldCall(sfn, []fval{recv})
+			if err != nil || r.fields == nil {
+				return nil
+			}
+			var out []string
+			for i := 0; i < 7; i++ {
+				e, ok := r.fields[fmt.Sprintf("#%d", i)]
+				if !ok || e.k == nil || e.k.Kind() != constant.String {
+					return nil
+				}
+				out = append(out, constant.StringVal(e.k))
+			}
+			return out
+		}
+		if mj, mn := fold(false), fold(true); mj != nil && mn != nil {
+			return mj, mn, pos, nil
+		}
+	}
 	lit := func(rs *ast.ReturnStmt) []string {
 		if rs == nil || len(rs.Results) != 1 {
 			return nil
